@@ -116,6 +116,33 @@ def c06(rng, qk):
         else:
             s.backend_some(fine_prob=0.6)
     s.op(f"tick {2 * grace + 4}")
+    if grace and rng.random() < 0.4:
+        # one read pass must be ONE cut across the queues: the backend is parked between the reads of two queues; the thread whose
+        # (empty) queue has been read logs, the other thread then calls flush_log(), time passes - the flush request must not be
+        # taken in this pass (its cut-off is the one the pass started with), or it overtakes the other thread's earlier statement
+        for v in s.threads:
+            s.op(f"T {v} go")
+        for _ in range(4):
+            s.op("B drain")
+            for v in s.threads:
+                s.op(f"T {v} go")
+        a, b = f"t{len(s.threads)}", f"t{len(s.threads) + 1}"
+        s.start(a)
+        s.start(b)
+        s.log(a, "L0", pad=2)                       # registration order: a's context before b's
+        s.log(b, "L0", pad=2)
+        s.op(f"tick {2 * grace + 4}")
+        s.op("B drain")
+        s.op("B pollf")
+        s.op(f"B until:POP_CTX:{b}")                # a's queue has been read (empty); b's is next
+        s.log(a, "L0", pad=3)
+        s.op(f"T {b} flush L0")
+        s.op(f"tick {2 * grace + 4}")
+        s.op("B until:-")
+        for _ in range(3):
+            s.op(f"T {b} go")
+            s.op("B poll")
+        s.op(f"tick {2 * grace + 4}")
     s.finish(final=True)
     return s.text(), s.grace
 
